@@ -1,6 +1,10 @@
 import LanceModel.C26.RlePage
 import LanceModel.C26.BssLemmas
 import LanceModel.C26.FlatLemmas
+import LanceModel.C26.BinPage
+import LanceModel.C26.DictLemmas
+import LanceModel.C26.BitpackLemmas
+import LanceModel.C26.VarLemmas
 /-!
 # C26 — every compression codec is lossless; chunking respects the mini-block limits
 
@@ -122,5 +126,157 @@ theorem flat_chunk_limits (bpv nv : Nat) (hb : 2 * bpv < MAX_MINIBLOCK_BYTES) (d
     fun n hn => ⟨(i3 n hn).1, by have := (i3 n hn).2; omega⟩, i4⟩
 
 example : (flatEncode 4 3000 []).2 = [⟨[4096], 10⟩, ⟨[4096], 10⟩, ⟨[3808], 0⟩] := by decide
+
+/-! ## variable width: binary mini-block -/
+
+/-- BinaryMiniBlockEncoder / BinaryMiniBlockDecompressor (32- and 64-bit offsets): every non-empty block of byte
+    strings of at most 4000 bytes each (the strategy only uses mini-blocks for values < 256 bytes) decodes to
+    itself chunk by chunk.  Holds for the code after the /repo fix of search_next_offset_idx. -/
+theorem binary_dec_enc (bw : Nat) (hbw : bw = 4 ∨ bw = 8) (vals : List (List Nat)) (hne : vals ≠ [])
+    (hsmall : ∀ v ∈ vals, v.length ≤ 4000) :
+    decodeChunks (binDecodeChunk bw) vals.length 0 (binEncode bw vals).1 (binEncode bw vals).2 = .ok vals :=
+  bin_roundtrip bw hbw vals hne hsmall
+
+/-- binary chunk limits: every chunk ≤ MAX_MINIBLOCK_BYTES, no empty chunk, the chunks cover the block -/
+theorem binary_chunk_limits (bw : Nat) (hbw : bw = 4 ∨ bw = 8) (vals : List (List Nat)) (hne : vals ≠ [])
+    (hsmall : ∀ v ∈ vals, v.length ≤ 4000) :
+    (∀ c ∈ (binEncode bw vals).2, c.sizes.sum ≤ MAX_MINIBLOCK_BYTES) ∧
+    (chunkCounts vals.length 0 (binEncode bw vals).2).sum = vals.length ∧
+    (∀ n ∈ chunkCounts vals.length 0 (binEncode bw vals).2, 0 < n) :=
+  bin_limits bw hbw vals hne hsmall
+
+/-- search_next_offset_idx: progress, range, a power of two ≥ 2 unless it reaches the end, and a chunk of at most
+    MAX_MINIBLOCK_BYTES - 8 bytes unless it holds at most two values -/
+theorem binary_cut_sound (offs : List Nat) (bw last : Nat) (hlast : last < offs.length - 1) :
+    CutGood offs bw last (searchNext offs bw last) :=
+  searchNext_good offs bw last hlast
+
+/-- one chunk: the decompressor returns exactly the chunk's byte strings -/
+theorem binary_decode_chunk (bw : Nat) (hbw : 0 < bw) (cv : List (List Nat)) (hne : cv ≠ [])
+    (hfit : (cv.length + 1) * bw + cv.flatten.length < 256 ^ bw) :
+    binDecodeChunk bw [binChunkBytes bw cv] cv.length = .ok cv :=
+  binDecodeChunk_ok bw hbw cv hne hfit
+
+example : binEncode 4 [[1, 8, 15], [], [9, 16, 23, 30, 37]] =
+    ([[16, 0, 0, 0, 19, 0, 0, 0, 19, 0, 0, 0, 24, 0, 0, 0, 1, 8, 15, 9, 16, 23, 30, 37]], [⟨[24], 0⟩]) := by decide
+
+/-- VariableEncoder (BlockCompressor) / BinaryBlockDecompressor, standard scheme: the header
+    | bits_per_offset | bytes_start_offset | is parsed back into (bits per offset, the offsets buffer, the data buffer) -/
+theorem variable_block_dec_enc (offs data : List Nat) :
+    (8 + 4 * offs.length < 256 ^ 4 → varBlockDecode (varBlockEncode 4 offs data) = .ok (32, encodeWords 4 offs, data)) ∧
+    (16 + 8 * offs.length < 256 ^ 8 → varBlockDecode (varBlockEncode 8 offs data) = .ok (64, encodeWords 8 offs, data)) :=
+  ⟨varBlock32 offs data, varBlock64 offs data⟩
+
+example : varBlockEncode 4 [0, 3, 3, 8] [1, 8, 15, 9, 16, 23, 30, 37] =
+    [32, 0, 0, 0, 24, 0, 0, 0, 0, 0, 0, 0, 3, 0, 0, 0, 3, 0, 0, 0, 8, 0, 0, 0, 1, 8, 15, 9, 16, 23, 30, 37] := by decide
+
+/-! ## dictionary -/
+
+/-- dictionary_encode then lookup: the indices point at the input values; the dictionary has no duplicates -/
+theorem dict_dec_enc {α : Type} [DecidableEq α] (xs : List α) :
+    dictDecode (dictEncode xs).2 (dictEncode xs).1 = some xs ∧ (dictEncode xs).2.Nodup :=
+  ⟨dictLoop_decode [] xs, dictLoop_nodup [] xs List.nodup_nil⟩
+
+example : dictEncode [3, 1, 3, 5, 1] = ([0, 1, 0, 2, 1], [3, 1, 5]) := by decide
+
+/-! ## inline bit-packing: framing around the kernel (the kernel itself is C28) -/
+
+/-- InlineBitpacking (bitpack_chunked / unchunk): with a kernel that inverts itself on 1024-word blocks, every
+    chunk (header word = bit width of the chunk, zero padded last chunk) decodes to its slice of the input, and the
+    chunk table yields the slices' lengths -/
+theorem inline_bitpack_dec_enc (k : Kernel) (hk : KernelOK k) (hb : k.bits ≤ 64) (xs : List Nat) (hne : xs ≠ [])
+    (hfit : ∀ x ∈ xs, x < 2 ^ k.bits) :
+    ∃ vals : List (List Nat), vals.length = (ibpEncode k xs).length ∧ vals.flatten = xs ∧
+      (∀ pv ∈ (ibpEncode k xs).zip vals, ibpDecodeChunk k pv.1.1 pv.1.2.1 = .ok pv.2) ∧
+      chunkCounts xs.length 0 ((ibpEncode k xs).map (ibpChunkOf k)) = (ibpEncode k xs).map (·.2.1) := by
+  have hl : xs.length ≤ xs.length * 1024 := Nat.le_mul_of_pos_right _ (by omega)
+  obtain ⟨vals, v1, v2, v3, v4, _⟩ := ibpPieces_spec k hk k.bits hb xs.length xs.length xs 0 hne hl (by omega) hfit
+  exact ⟨vals, v1, v2, v3, v4⟩
+
+/-- the documented byte limit, as stated for all word sizes and widths -/
+def InlineBitpackChunkBytes_full : Prop :=
+  ∀ bits w, (bits = 8 ∨ bits = 16 ∨ bits = 32 ∨ bits = 64) → w ≤ bits → ibpChunkBytes bits w ≤ MAX_MINIBLOCK_BYTES
+
+/-- holds except for 64-bit words whose chunk needs all 64 bits -/
+theorem inline_bitpack_chunk_bytes_partial (bits w : Nat) (hbits : bits = 8 ∨ bits = 16 ∨ bits = 32 ∨ bits = 64)
+    (hw : w ≤ bits) (hnot : ¬ (bits = 64 ∧ w = 64)) : ibpChunkBytes bits w ≤ MAX_MINIBLOCK_BYTES :=
+  ibpChunkBytes_bound bits w hbits hw hnot
+
+/-- 1024 64-bit words of width 64: (1 + 1024) * 8 = 8200 > 8186 (known finding inline_bitpack_u64_full_width_chunk_bytes) -/
+theorem inline_bitpack_chunk_bytes_counterexample : ¬ InlineBitpackChunkBytes_full := by
+  intro h
+  have := h 64 64 (by omega) (by omega)
+  simp [ibpChunkBytes, MAX_MINIBLOCK_BYTES] at this
+
+/-- the size formula is the size of the chunk the encoder emits -/
+theorem inline_bitpack_chunk_bytes_tie (k : Kernel) (hk : KernelOK k) (hbits : k.bits = 8 ∨ k.bits = 16 ∨ k.bits = 32 ∨ k.bits = 64)
+    (w : Nat) (xs : List Nat) (hx : xs.length = 1024) :
+    (ibpChunkOf k (w :: k.pack w xs, 1024, 10)).sizes = [ibpChunkBytes k.bits w] := by
+  have := hk.hpack_len w xs hx
+  simp only [ibpChunkOf, ibpChunkBytes, List.length_cons, List.cons.injEq, and_true]
+  rcases hbits with h | h | h | h <;> rw [h] at this ⊢ <;> congr 1 <;> omega
+
+example : chunkBitWidth [0, 5, 255] = 8 ∧ chunkBitWidth [0, 0] = 0 ∧ chunkBitWidth [2 ^ 63] = 64 := by decide
+
+/-! ## general (LZ4 / ZSTD) wrapper, the library as a parameter -/
+
+/-- GeneralMiniBlockDecompressor on a chunk whose first buffer was compressed by the library gives what the inner
+    decompressor gives on the uncompressed chunk (`decomp (comp b) = b` assumed for the library) -/
+theorem general_dec_enc {α : Type} (lib : Lib) (hl : LibOK lib) (inner : List (List Nat) → Nat → Res (List α))
+    (b0 : List Nat) (rest : List (List Nat)) (n : Nat) :
+    generalDecodeChunk lib inner (lib.comp b0 :: rest) n = inner (b0 :: rest) n :=
+  generalDecodeChunk_ok lib hl inner b0 rest n
+
+/-! ## the property as a whole (modelled codecs) -/
+
+/-- C26 for the modelled codecs: lossless and within the chunk limits.  The inline bit-packing byte limit is the
+    one clause the code does not meet. -/
+def C26_full : Prop :=
+  (∀ ts data, 1 ≤ ts ∧ ts ≤ 8 → (∀ v ∈ data, v < 256 ^ ts) →
+    decodeChunks (rleDecodeChunk ts) data.length 0 (rleEncode ts data).1 (rleEncode ts data).2 = .ok data ∧
+    ∀ c ∈ (rleEncode ts data).2, c.sizes.sum ≤ MAX_MINIBLOCK_BYTES) ∧
+  (∀ w nv d, (w = 4 ∨ w = 8) → d.length = nv * w →
+    decodeChunks (bssDecodeChunk w) nv 0 (bssEncode w nv d).1 (bssEncode w nv d).2 = .ok d ∧
+    ∀ c ∈ (bssEncode w nv d).2, c.sizes.sum ≤ MAX_MINIBLOCK_BYTES) ∧
+  (∀ bpv nv d, 2 * bpv < MAX_MINIBLOCK_BYTES → d.length = nv * bpv →
+    decodeChunks flatDecodeChunk nv 0 (flatEncode bpv nv d).1 (flatEncode bpv nv d).2 = .ok d ∧
+    ∀ c ∈ (flatEncode bpv nv d).2, c.sizes.sum ≤ MAX_MINIBLOCK_BYTES) ∧
+  (∀ bw vals, (bw = 4 ∨ bw = 8) → vals ≠ [] → (∀ v ∈ vals, v.length ≤ 4000) →
+    decodeChunks (binDecodeChunk bw) vals.length 0 (binEncode bw vals).1 (binEncode bw vals).2 = .ok vals ∧
+    ∀ c ∈ (binEncode bw vals).2, c.sizes.sum ≤ MAX_MINIBLOCK_BYTES) ∧
+  (∀ mx vs, mx ≠ 0 → mx < 2 ^ 64 → (∀ v ∈ vs, v ≤ mx) →
+    byteUnpack (bytepackWidth mx) ((bytepack mx vs).length + 1) (bytepack mx vs) = .ok vs) ∧
+  (∀ xs : List Nat, dictDecode (dictEncode xs).2 (dictEncode xs).1 = some xs) ∧
+  InlineBitpackChunkBytes_full
+
+/-- everything but the last clause holds; the last one holds outside (bits, w) = (64, 64) -/
+theorem C26_partial :
+    (∀ ts data, 1 ≤ ts ∧ ts ≤ 8 → (∀ v ∈ data, v < 256 ^ ts) →
+      decodeChunks (rleDecodeChunk ts) data.length 0 (rleEncode ts data).1 (rleEncode ts data).2 = .ok data ∧
+      ∀ c ∈ (rleEncode ts data).2, c.sizes.sum ≤ MAX_MINIBLOCK_BYTES) ∧
+    (∀ w nv d, (w = 4 ∨ w = 8) → d.length = nv * w →
+      decodeChunks (bssDecodeChunk w) nv 0 (bssEncode w nv d).1 (bssEncode w nv d).2 = .ok d ∧
+      ∀ c ∈ (bssEncode w nv d).2, c.sizes.sum ≤ MAX_MINIBLOCK_BYTES) ∧
+    (∀ bpv nv d, 2 * bpv < MAX_MINIBLOCK_BYTES → d.length = nv * bpv →
+      decodeChunks flatDecodeChunk nv 0 (flatEncode bpv nv d).1 (flatEncode bpv nv d).2 = .ok d ∧
+      ∀ c ∈ (flatEncode bpv nv d).2, c.sizes.sum ≤ MAX_MINIBLOCK_BYTES) ∧
+    (∀ bw vals, (bw = 4 ∨ bw = 8) → vals ≠ [] → (∀ v ∈ vals, v.length ≤ 4000) →
+      decodeChunks (binDecodeChunk bw) vals.length 0 (binEncode bw vals).1 (binEncode bw vals).2 = .ok vals ∧
+      ∀ c ∈ (binEncode bw vals).2, c.sizes.sum ≤ MAX_MINIBLOCK_BYTES) ∧
+    (∀ mx vs, mx ≠ 0 → mx < 2 ^ 64 → (∀ v ∈ vs, v ≤ mx) →
+      byteUnpack (bytepackWidth mx) ((bytepack mx vs).length + 1) (bytepack mx vs) = .ok vs) ∧
+    (∀ xs : List Nat, dictDecode (dictEncode xs).2 (dictEncode xs).1 = some xs) ∧
+    (∀ bits w, (bits = 8 ∨ bits = 16 ∨ bits = 32 ∨ bits = 64) → w ≤ bits → ¬ (bits = 64 ∧ w = 64) →
+      ibpChunkBytes bits w ≤ MAX_MINIBLOCK_BYTES) :=
+  ⟨fun ts data h1 h2 => ⟨rle_dec_enc ts h1 data h2, (rle_chunk_limits ts h1 data h2).1⟩,
+   fun w nv d h1 h2 => ⟨bss_dec_enc w nv d h2, (bss_chunk_limits w nv h1 d h2).1⟩,
+   fun bpv nv d h1 h2 => ⟨flat_dec_enc bpv nv h1 d h2, (flat_chunk_limits bpv nv h1 d h2).1⟩,
+   fun bw vals h1 h2 h3 => ⟨binary_dec_enc bw h1 vals h2 h3, (binary_chunk_limits bw h1 vals h2 h3).1⟩,
+   fun mx vs h1 h2 h3 => bytepack_dec_enc mx h1 h2 vs h3,
+   fun xs => (dict_dec_enc xs).1,
+   fun bits w h1 h2 h3 => inline_bitpack_chunk_bytes_partial bits w h1 h2 h3⟩
+
+theorem C26_counterexample : ¬ C26_full :=
+  fun h => inline_bitpack_chunk_bytes_counterexample h.2.2.2.2.2.2
 
 end LanceModel.C26
